@@ -285,6 +285,7 @@ func Run(c Case) core.Result {
 	if c.Auth {
 		cfg.Auth = &script.AuthSpec{User: "*", Pass: "pw"}
 	}
+	mark := core.RaceMark()
 	env := script.Start(cfg)
 	defer env.Stop()
 	results := make([]connResult, len(c.Conns))
@@ -318,6 +319,7 @@ func Run(c Case) core.Result {
 	}
 	if ok, d := env.UserMapIntact(); !ok {
 		res.Sig, res.Violation = "C12/user-map-modified", d
+		return res
 	}
-	return res
+	return core.RaceResult(res, "C12", core.RaceSince(mark))
 }
